@@ -281,6 +281,7 @@ def run(replay=None):
         stats["grad_points"] += int(f["gpts"]); stats["feature_points"] += int(f["fpts"])
         stats["interval_points"] += int(f["pts"]); stats["push_points"] += int(f["ppts"])
         stats["batch_points"] = stats.get("batch_points", 0) + int(f.get("bpts", 0))
+        stats["value_mismatch_skipped"] = stats.get("value_mismatch_skipped", 0) + int(f.get("vskip", 0))
         for l in oi:
             if "pushed_len=" in l:
                 a, b = l.split("pushed_len=")[1].split(" base_len=")
